@@ -319,6 +319,47 @@ def evalNaive : List String → Option String
     pure (match tua, others with
       | some tua, some others => guardRBs (tua :: others) fun _ => Spec.naiveFp tua others b 0 lim
       | _, _ => "panic")
+  -- naive evaluation restricted to the offsets at which the analysed demand steps (found by
+  -- brute force from `need`, not from `steps_iter`): what the pruned implementation must equal
+  | "nvs_ros_tm" :: ts => do
+    let (s, ts) ← pSupply ts
+    let (own, ts) ← pRB ts
+    let (interf, ts) ← pRB ts
+    let (b, ts) ← pNat ts
+    let (lim, _) ← pNat ts
+    pure (match own, interf with
+      | some own, some interf => if s.WF then guardRBs [own, interf] fun _ =>
+          Spec.naiveRosBoundOn s (fun d => own.need d + b + interf.need d)
+            (fun A r => own.need (A + 1) + interf.need (interferenceInterval own A r) + b) lim
+            (fun maxBw => (List.range (maxBw + 1)).filter fun A => own.need A < own.need (A + 1)) else "panic"
+      | _, _ => "panic")
+  | "nvs_ros_pp" :: ts => do
+    let (s, ts) ← pSupply ts
+    let (own, ts) ← pRB ts
+    let (interf, ts) ← pRB ts
+    let (lim, _) ← pNat ts
+    pure (match own, interf with
+      | some own, some interf => if s.WF then guardRBs [own, interf] fun _ =>
+          Spec.naiveRosBoundOn s (fun d => own.need d + interf.need d)
+            (fun A r => own.need (A + 1) + interf.need (interferenceInterval own A r)) lim
+            (fun maxBw => (List.range (maxBw + 1)).filter fun A => own.need A < own.need (A + 1)) else "panic"
+      | _, _ => "panic")
+  | "nvs_ros_ch" :: ts => do
+    let (s, ts) ← pSupply ts
+    let (last, ts) ← pRB ts
+    let (pfx, ts) ← pRB ts
+    let (full, ts) ← pRB ts
+    let (others, ts) ← pRB ts
+    let (lim, _) ← pNat ts
+    pure (match last, pfx, full, others with
+      | some last, some pfx, some full, some others =>
+        if s.WF then guardRBs [last, pfx, full, others] fun _ =>
+          Spec.naiveRosBoundOn s (fun d => full.need d + others.need d)
+            (fun A r =>
+              let iv := interferenceInterval last A r
+              last.need (A + 1) + pfx.need iv + others.need iv) lim
+            (fun maxBw => (List.range (maxBw + 1)).filter fun A => full.need A < full.need (A + 1)) else "panic"
+      | _, _, _, _ => "panic")
   | "nv_ros_es" :: ts => do
     let (s, ts) ← pSupply ts
     let (r, ts) ← pRB ts
